@@ -47,12 +47,13 @@ package variants
 //@     invariant implies(insOpen, insLength == gInsLen && insRefPos == gInsRef)
 //@     invariant refBases == refleft
 //@     invariant implies(delOpen, 0 <= delStart && delStart < pos && ref[delStart] != 244 && delLength == gDelLen && gDelRef == delStart - count(k, 0, delStart, ref[k] == 244))
-//@     invariant len(variants) == gEmit
+//@     invariant len(variants) == gEmit && freshslice(variants) && forall(j, 0, len(variants), variants[j].Changetype == "ins" || variants[j].Changetype == "del")
 //@     do-end if ref[pos] == 244 { gapleft++; if query[pos] != 244 { if gIns { gInsLen++ } else { gIns = true; gInsRef = refleft; gInsLen = 1 } } } else { if gIns { gEmit++; gIns = false }; if query[pos] == 244 { if gDel { gDelLen++ } else { gDel = true; gDelRef = refleft; gDelLen = 1 } } else { if gDel { if gDelRef != 0 { gEmit++ }; gDel = false } }; refleft++ }
 //@   after append#1: assert [ins.mid] gIns && variants[len(variants)-1].Changetype == "ins" && variants[len(variants)-1].Position == gInsRef && variants[len(variants)-1].Length == gInsLen
 //@   after append#2: assert [del] gDel && gDelRef != 0 && variants[len(variants)-1].Changetype == "del" && variants[len(variants)-1].Position == gDelRef + 1 && variants[len(variants)-1].Length == gDelLen
 //@   after append#3: assert [ins.end] gIns && variants[len(variants)-1].Changetype == "ins" && variants[len(variants)-1].Position == gInsRef && variants[len(variants)-1].Length == gInsLen
-//@   ensures len(result) == ite(gIns, gEmit + 1, gEmit)
+//@   ensures [local.count] len(result) == ite(gIns, gEmit + 1, gEmit)
+//@   ensures [kinds] forall(j, 0, len(result), result[j].Changetype == "ins" || result[j].Changetype == "del")
 
 //@ spec posOf(k int) int uninterpreted
 //@ spec keepPos(p int, start int, end int) bool = (start <= 0 || p >= start) && (end <= 0 || p <= end)
@@ -109,3 +110,114 @@ package variants
 
 //@ # C16: fifth copy of the scanner loop – safety sweep (no panic on any line sequence)
 //@ func findReference
+
+//@ # C04: coding / non-coding split of the genome
+//@ func gmin
+//@   requires len(s) >= 1
+//@   loop 1:
+//@     invariant exists(j, 0, len(s), s[j] == min) && forall(j, 0, range_i, min <= s[j])
+//@   ensures exists(j, 0, len(s), s[j] == result) && forall(j, 0, len(s), result <= s[j])
+//@ func gmax
+//@   requires len(s) >= 1
+//@   loop 1:
+//@     invariant exists(j, 0, len(s), s[j] == max) && forall(j, 0, range_i, max >= s[j])
+//@   ensures exists(j, 0, len(s), s[j] == result) && forall(j, 0, len(s), result >= s[j])
+
+//@ # codes: the positions 1..refLength that are in no region's Positions, ascending (the 'intergenic' list).
+//@ # coveredIdx(rs, p): 1-based position p+1 occurs in some region's Positions.
+//@ pred coveredIdx(rs []Region, p int) = exists(r, 0, len(rs), exists(k, 0, len(rs[r].Positions), rs[r].Positions[k] == p + 1))
+//@ pred coveredUpTo(rs []Region, n int, p int) = exists(r, 0, n, exists(k, 0, len(rs[r].Positions), rs[r].Positions[k] == p + 1))
+//@ func codes
+//@   requires refLength >= 0
+//@   requires forall(r, 0, len(proteincoding), forall(k, 0, len(proteincoding[r].Positions), 1 <= proteincoding[r].Positions[k] && proteincoding[r].Positions[k] <= refLength))
+//@   loop 1:
+//@     invariant len(codes) == refLength && freshslice(codes)
+//@     invariant forall(p, 0, refLength, codes[p] == coveredUpTo(proteincoding, range_i, p))
+//@   loop 2:
+//@     invariant len(codes) == refLength && freshslice(codes)
+//@     invariant forall(p, 0, refLength, codes[p] == (coveredUpTo(proteincoding, range_i1, p) || exists(k, 0, range_i, feature.Positions[k] == p + 1)))
+//@   loop 3:
+//@     invariant len(intergenicregions) == count(k, 0, i, !codes[k]) && freshslice(intergenicregions) && disjoint(intergenicregions, codes)
+//@     invariant forall(j, 0, i, implies(!codes[j], intergenicregions[count(k, 0, j, !codes[k])] == j + 1))
+//@     invariant forall(j, 0, len(intergenicregions), 1 <= intergenicregions[j] && intergenicregions[j] <= i && !codes[intergenicregions[j] - 1])
+//@     invariant forall(p, 0, refLength, codes[p] == old(coveredIdx(proteincoding, p)))
+//@     invariant forall(p, 0, refLength, implies(old(coveredIdx(proteincoding, p)), forall(j, 0, len(intergenicregions), intergenicregions[j] != p + 1)))
+//@     invariant forall(a, 0, len(intergenicregions), forall(b, a + 1, len(intergenicregions), intergenicregions[a] < intergenicregions[b]))
+//@   before return#1: assert [hint.witness] forall(j, 0, refLength, implies(!codes[j], 0 <= count(k, 0, j, !codes[k]) && count(k, 0, j, !codes[k]) < len(intergenicregions) && intergenicregions[count(k, 0, j, !codes[k])] == j + 1))
+//@   ensures [sound] forall(j, 0, len(result), 1 <= result[j] && result[j] <= refLength) && forall(p, 0, refLength, implies(old(coveredIdx(proteincoding, p)), forall(j, 0, len(result), result[j] != p + 1)))
+//@   ensures [complete] forall(p, 0, refLength, old(coveredIdx(proteincoding, p)) || exists(j, 0, len(result), result[j] == p + 1))
+//@   ensures [ascending] forall(a, 0, len(result), forall(b, a + 1, len(result), result[a] < result[b]))
+
+//@ # getNucsPair: one nuc record per listed position whose encoded pair is disjoint, in list order
+//@ func getNucsPair
+//@   requires len(ref) == len(query)
+//@   requires forall(j, 0, len(pos), 1 <= pos[j] && pos[j] <= len(offsetRefCoord) && 0 <= pos[j] - 1 + offsetRefCoord[pos[j]-1] && pos[j] - 1 + offsetRefCoord[pos[j]-1] < len(ref))
+//@   loop 1:
+//@     invariant forall(j, 0, len(variants), variants[j].Changetype == "nuc")
+//@     invariant freshslice(variants) && len(variants) == count(k, 0, range_i, (ref[pos[k] - 1 + offsetRefCoord[pos[k]-1]] & query[pos[k] - 1 + offsetRefCoord[pos[k]-1]]) < 16)
+//@     invariant forall(j, 0, range_i, implies((ref[pos[j] - 1 + offsetRefCoord[pos[j]-1]] & query[pos[j] - 1 + offsetRefCoord[pos[j]-1]]) < 16, variants[count(k, 0, j, (ref[pos[k] - 1 + offsetRefCoord[pos[k]-1]] & query[pos[k] - 1 + offsetRefCoord[pos[k]-1]]) < 16)].Position == pos[j] && variants[count(k, 0, j, (ref[pos[k] - 1 + offsetRefCoord[pos[k]-1]] & query[pos[k] - 1 + offsetRefCoord[pos[k]-1]]) < 16)].Changetype == "nuc"))
+//@   after append#1: assert [record] variants[len(variants)-1].Changetype == "nuc" && variants[len(variants)-1].Position == p && variants[len(variants)-1].RefAl == DA[ref[alignPos]] && variants[len(variants)-1].QueAl == DA[query[alignPos]] && (ref[alignPos] & query[alignPos]) < 16
+//@   ensures [local.count] len(result) == count(k, 0, len(pos), (ref[pos[k] - 1 + offsetRefCoord[pos[k]-1]] & query[pos[k] - 1 + offsetRefCoord[pos[k]-1]]) < 16)
+//@   ensures [kinds] forall(j, 0, len(result), result[j].Changetype == "nuc")
+//@   ensures [local.positions] forall(j, 0, len(pos), implies((ref[pos[j] - 1 + offsetRefCoord[pos[j]-1]] & query[pos[j] - 1 + offsetRefCoord[pos[j]-1]]) < 16, result[count(k, 0, j, (ref[pos[k] - 1 + offsetRefCoord[pos[k]-1]] & query[pos[k] - 1 + offsetRefCoord[pos[k]-1]]) < 16)].Position == pos[j] && result[count(k, 0, j, (ref[pos[k] - 1 + offsetRefCoord[pos[k]-1]] & query[pos[k] - 1 + offsetRefCoord[pos[k]-1]]) < 16)].Changetype == "nuc"))
+
+//@ # getAAsPair (C04): per complete codon of the feature, either one aa record (when the query codon has a dictionary
+//@ # entry different from the reference residue) or the codon's nuc records. Ghost: gDis = disjoint positions seen,
+//@ # gNuc = nuc records emitted, gIn = SNPs folded into aa records; gP1..gP3 = alignment columns of the current codon.
+//@ func getAAsPair
+//@   requires len(ref) == len(query)
+//@   requires forall(j, 0, len(region.Positions), 1 <= region.Positions[j] && region.Positions[j] <= len(offsetRefCoord) && 0 <= region.Positions[j] - 1 + offsetRefCoord[region.Positions[j]-1] && region.Positions[j] - 1 + offsetRefCoord[region.Positions[j]-1] < len(ref))
+//@   requires len(region.Translation) * 3 >= len(region.Positions)
+//@   ghost gDis int = 0
+//@   ghost gNuc int = 0
+//@   ghost gIn int = 0
+//@   ghost gP1 int = 0
+//@   ghost gP2 int = 0
+//@   loop 1:
+//@     invariant 0 <= codonCounter && codonCounter < 3 && 0 <= aaCounter && 3 * aaCounter + codonCounter <= range_i && freshslice(variants) && freshslice(codonSNPs) && disjoint(variants, codonSNPs)
+//@     invariant len(codonSNPs) <= codonCounter && gDis == len(codonSNPs) + gNuc + gIn && gNuc + gIn >= 0
+//@     invariant forall(j, 0, len(codonSNPs), codonSNPs[j].Changetype == "nuc")
+//@     invariant forall(j, 0, len(variants), variants[j].Changetype == "nuc" || variants[j].Changetype == "aa")
+//@     invariant decodedCodon == ite(codonCounter == 0, "", ite(codonCounter == 1, DA[query[gP1]], DA[query[gP1]] + DA[query[gP2]]))
+//@     invariant implies(codonCounter >= 1, 0 <= gP1 && gP1 < len(query)) && implies(codonCounter == 2, 0 <= gP2 && gP2 < len(query))
+//@   loop 3:
+//@     invariant freshslice(variants) && freshslice(codonSNPs) && disjoint(variants, codonSNPs) && codonCounter == 3
+//@     invariant gDis == len(codonSNPs) - range_i + gNuc + gIn && gNuc + gIn >= 0
+//@     invariant forall(j, 0, len(codonSNPs), codonSNPs[j].Changetype == "nuc")
+//@     invariant forall(j, 0, len(variants), variants[j].Changetype == "nuc" || variants[j].Changetype == "aa")
+//@   after assign:alignmentPos#1: do if ref[alignmentPos] != 244 { if (query[alignmentPos] & ref[alignmentPos]) < 16 { gDis++ }; if codonCounter == 0 { gP1 = alignmentPos } else { if codonCounter == 1 { gP2 = alignmentPos } } }
+//@   after append#3: assert [aa] variants[len(variants)-1].Changetype == "aa" && variants[len(variants)-1].Feature == region.Name && variants[len(variants)-1].Residue == aaCounter + 1 && variants[len(variants)-1].RefAl == string(region.Translation[aaCounter]) && variants[len(variants)-1].QueAl == aa && aa != refaa && aa != "X" && in(CD, decodedCodon) && aa == CD[decodedCodon] && variants[len(variants)-1].Position == refPos - 2 * region.Strand
+//@   after append#3: assert [aa.codon] implies(region.Strand != -1, decodedCodon == DA[query[gP1]] + DA[query[gP2]] + DA[query[alignmentPos]])
+//@   after append#3: do gIn += len(codonSNPs)
+//@   after append#4: do gNuc++
+//@   ensures [kinds] forall(j, 0, len(result), result[j].Changetype == "nuc" || result[j].Changetype == "aa")
+//@   ensures [local.nothing_lost] implies(codonCounter == 0, gDis == gNuc + gIn)
+
+//@ # GetVariantsPair (C04/C05): merge, stable sort by (Position, Changetype), drop deletions at position 0 and adjacent
+//@ # duplicates. Nothing else is lost: every merged record that is not a del@0 equals some record of the output.
+//@ spec vLess(pa int, ca string, pb int, cb string) bool = pa < pb || (pa == pb && ca < cb)
+//@ func GetVariantsPair
+//@   requires len(ref) == len(query) && len(offsetMSACoord) == len(ref)
+//@   requires forall(j, 0, len(ref), implies(ref[j] != 244, offsetMSACoord[j] == count(k, 0, j, ref[k] == 244)))
+//@   requires forall(j, 0, len(ref), implies(ref[j] == 244, offsetMSACoord[j] == 0))
+//@   requires forall(j, 0, len(intregions), 1 <= intregions[j] && intregions[j] <= len(offsetRefCoord) && 0 <= intregions[j] - 1 + offsetRefCoord[intregions[j]-1] && intregions[j] - 1 + offsetRefCoord[intregions[j]-1] < len(ref))
+//@   requires forall(r, 0, len(cdsregions), len(cdsregions[r].Translation) * 3 >= len(cdsregions[r].Positions) && forall(j, 0, len(cdsregions[r].Positions), 1 <= cdsregions[r].Positions[j] && cdsregions[r].Positions[j] <= len(offsetRefCoord) && 0 <= cdsregions[r].Positions[j] - 1 + offsetRefCoord[cdsregions[r].Positions[j]-1] && cdsregions[r].Positions[j] - 1 + offsetRefCoord[cdsregions[r].Positions[j]-1] < len(ref)))
+//@   ghost gW map[int]int = make(map[int]int)
+//@   loop 1:
+//@     invariant freshslice(AAs) && forall(j, 0, len(AAs), AAs[j].Changetype == "nuc" || AAs[j].Changetype == "aa")
+//@   loop 2:
+//@     invariant freshslice(finalVariants) && disjoint(finalVariants, variants)
+//@     invariant forall(a, 0, len(finalVariants), exists(b, 0, i, finalVariants[a] == variants[b]))
+//@     invariant forall(b, 0, i, (variants[b].Changetype == "del" && variants[b].Position == 0) || (0 <= gW[b] && gW[b] < len(finalVariants) && finalVariants[gW[b]] == variants[b]))
+//@     invariant implies(len(finalVariants) > 0, previousVariant == finalVariants[len(finalVariants)-1]) && implies(len(finalVariants) == 0, previousVariant.Changetype == "")
+//@     invariant forall(b, 0, len(variants), variants[b].Changetype != "")
+//@     invariant forall(a, 0, len(finalVariants), !(finalVariants[a].Changetype == "del" && finalVariants[a].Position == 0))
+//@     invariant forall(a, 0, len(finalVariants), forall(b, a + 1, len(finalVariants), !vLess(finalVariants[b].Position, finalVariants[b].Changetype, finalVariants[a].Position, finalVariants[a].Changetype)))
+//@     invariant implies(len(finalVariants) > 0 && i < len(variants), !vLess(variants[i].Position, variants[i].Changetype, finalVariants[len(finalVariants)-1].Position, finalVariants[len(finalVariants)-1].Changetype))
+//@   after append#5: do gW[i] = len(finalVariants) - 1
+//@   after append#6: do gW[i] = len(finalVariants) - 1
+//@   before if#4: do if v == previousVariant { gW[i] = len(finalVariants) - 1 }
+//@   ensures result2 == nil && result1.Queryname == queryID && result1.Idx == idx
+//@   ensures [local.nothing_lost] forall(b, 0, len(variants), (variants[b].Changetype == "del" && variants[b].Position == 0) || (0 <= gW[b] && gW[b] < len(finalVariants) && finalVariants[gW[b]] == variants[b]))
+//@   ensures [sorted] forall(a, 0, len(result1.Vs), forall(b, a + 1, len(result1.Vs), !vLess(result1.Vs[b].Position, result1.Vs[b].Changetype, result1.Vs[a].Position, result1.Vs[a].Changetype)))
+//@   ensures [nodel0] forall(a, 0, len(result1.Vs), !(result1.Vs[a].Changetype == "del" && result1.Vs[a].Position == 0))
